@@ -5,14 +5,14 @@
 (* interleaved at every position.                                          *)
 EXTENDS Bucket
 
-CONSTANTS Vals, Revs, MaxOps, CheckVH, Collide, MaxRestarts, Mutants
+CONSTANTS Vals, Revs, MaxOps, CheckVH, Collide, MaxRestarts, Mutants, WithGC, FileMax, BodyMaxBlk
 
 VARIABLES nops, nrestart
 
 Conf0 == [hashOf |-> [k \in Keys |-> IF Collide /\ k \in {"b", "c"} THEN "hb" ELSE "h" \o k],
           rank   |-> [k \in Keys |-> CASE k = "a" -> 1 [] k = "b" -> 2 [] OTHER -> 3],
-          fileMax |-> 3, splitCap |-> 2, checkVHash |-> CheckVH, dumpEager |-> FALSE,
-          bodyMaxBlk |-> 1, mut |-> Mutants]
+          fileMax |-> FileMax, splitCap |-> 2, checkVHash |-> CheckVH, dumpEager |-> FALSE,
+          bodyMaxBlk |-> BodyMaxBlk, mut |-> Mutants]
 NBlk(v) == IF v = 3 THEN 2 ELSE 1
 VhOf(v) == IF v = 2 THEN 11 ELSE 10 + v      \* values 1 and 2 share a value hash
 
@@ -26,6 +26,9 @@ Start ==
      \/ \E k \in Keys : I_Begin("c1", k, 1, -1)
      \/ F_Start("flusher")
      \/ CL_Start
+     \* (GC over a just rotated file whose flush is still pending is a schedule, not a history: MC_ConcGC)
+     \/ (WithGC /\ (\A c \in Chunks : pc[RotName(c)] = "idle") /\ \E b \in -1..MaxChunk, e \in -1..MaxChunk :
+            LET r == RangeOf(b, e, LAMBDA n : TRUE) IN r.ok /\ G_Start(r.b, r.e, FALSE))
 
 \* reads are not counted: they are observations (they matter for the collision table)
 StartFree ==
